@@ -722,6 +722,7 @@ func genC13(c *w1Case, r *simrt.Rng) {
 	pk := c.d.Actions[0]
 	n := r.Range(6, 40)
 	hatPos := int32(0)
+	midiIn := r.Chance(0.3)
 	for i := 0; i < n; i++ {
 		switch {
 		case hat && len(c.d.Mappings) > 1 && hatPos == 0 && len(g.actDown) == 0 && r.Chance(0.08):
@@ -752,6 +753,15 @@ func genC13(c *w1Case, r *simrt.Rng) {
 				hatPos = v
 				g.out = append(g.out, model.Event{Kind: "abs", Code: hatAxis.Code, Value: v})
 			}
+		case midiIn && r.Chance(0.15):
+			// MIDI input of every kind while the device plays: notes, controllers, pitch bend, programme changes, clock
+			msgs := [][]byte{{0x90, byte(r.Range(0, 127)), byte(r.Range(0, 127))}, {0x80, byte(r.Range(0, 127)), 0}, {0xB0, byte(r.Range(0, 127)), byte(r.Range(0, 127))},
+				{0xE0, byte(r.Range(0, 127)), byte(r.Range(0, 127))}, {0xC0, byte(r.Range(0, 127))}, {0xF8}, {0xD0, 5}, {0xB0, 123, 0}}
+			b := msgs[r.Intn(len(msgs))]
+			if b[0] < 0xF0 {
+				b[0] |= byte(r.Range(0, 15))
+			}
+			g.out = append(g.out, model.Event{Kind: "midiin", Bytes: b})
 		case r.Chance(0.15):
 			if hatPos != 0 && !g.down[pk.Code] {
 				continue
@@ -792,7 +802,7 @@ func genC13(c *w1Case, r *simrt.Rng) {
 	g.releaseAll()
 	c.script = g.out
 	c.state = r.Chance(0.5)
-	c.burst = !hat && r.Chance(0.4)
+	c.burst = !hat && !midiIn && r.Chance(0.4)
 }
 
 func genC14(c *w1Case, r *simrt.Rng) {
@@ -850,6 +860,14 @@ func genC14(c *w1Case, r *simrt.Rng) {
 			// once the sequence is complete the next event releases one of its keys (further
 			// presses while it stays held are not covered by the statement)
 			if g.exitAllDown() {
+				if last := len(g.out) - 1; last >= 0 && g.out[last].Kind == "key" && g.out[last].Value == 1 && r.Chance(0.3) {
+					// at this press the one-slot signal channel still holds a signal nobody has read yet (a SIGTERM that
+					// arrived a moment ago, or the previous completion): the press must raise its signal all the same
+					if c.sigFull == nil {
+						c.sigFull = map[int]bool{}
+					}
+					c.sigFull[last] = true
+				}
 				k := c.d.Exit[r.Intn(len(c.d.Exit))]
 				g.release(k.Code)
 			}
